@@ -1215,6 +1215,21 @@ impl Domain for NameId {
     }
 }
 
+#[cfg(googlefonts_fontations_verif)]
+impl<T> IntSet<T> {
+    /// Verification hook: exposes the internal representation
+    /// (inverted mode flag, page layout, allocated pages, cached length).
+    #[allow(clippy::type_complexity)]
+    pub fn verif_fingerprint(&self) -> (bool, Vec<(u32, u32, u32, u32)>, usize, u64) {
+        let (exclusive, set) = match &self.0 {
+            Membership::Inclusive(s) => (false, s),
+            Membership::Exclusive(s) => (true, s),
+        };
+        let (layout, pages, length) = set.verif_fingerprint();
+        (exclusive, layout, pages, length)
+    }
+}
+
 #[cfg(test)]
 mod test {
     use core::cmp::Ordering;
